@@ -340,6 +340,15 @@ def mutants(decls, rng):
                 nd = d.copy()
                 nd.lines.insert(j, "  undeclared_%d := 1;" % j)
                 out.append(("P0015", "assignment to an undeclared variable before line %d of %s" % (j, d.name), with_decl(i, nd)))
+            # the name of a function declared elsewhere, used as if it were a variable of this POU
+            for x in decls:
+                if x.kind == "function" and x is not d and d.kind != "function":
+                    tgt = next((v for v, t in d.info.get("locals", []) if t == "INT"), None)
+                    if tgt:
+                        nd = d.copy()
+                        nd.lines.insert(end, "  %s := %s;" % (tgt, x.name if rng.random() < 0.5 else x.name.upper()))
+                        out.append(("P0015", "function name %s used as a variable in %s" % (x.name, d.name), with_decl(i, nd)))
+                    break
             # a variable that is declared, but only in another POU (scopes must not leak between POUs)
             others = [x for x in decls if x is not d and x.kind in ("fb", "program") and x.info.get("locals")]
             own = set(l.split(":")[0].strip().lower() for l in d.lines if ":" in l)
